@@ -139,10 +139,9 @@ Lemma xbind_mono r r' k k' res :
   (forall x, r = x -> x <> XFuel -> r' = x) -> (forall s y, k s = y -> y <> XFuel -> k' s = y) ->
   xbind r' k' = res.
 Proof.
-  intros E Hne Hr Hk. destruct r as [s| |]; cbn [xbind] in E.
+  intros E Hne Hr Hk. destruct r as [s|]; cbn [xbind] in E.
   - rewrite (Hr _ eq_refl) by discriminate. cbn [xbind]. now apply Hk.
   - congruence.
-  - rewrite (Hr _ eq_refl) by discriminate. exact E.
 Qed.
 
 Section Mono.
@@ -165,7 +164,7 @@ Section Mono.
     { intros t res E Hn. unfold step in *. destruct t as [|b t']; [exact E|]. destruct (aeqb b c_lbrack).
       - unfold bracket_body in *. eapply xbind_mono; [exact E|exact Hn|apply HR|].
         intros r y Ey Hy. revert Ey. cbv beta. destruct (find_next c_rbrack r) as [inside after|]; [|intros Ey; exact Ey].
-        destruct (split_colon inside) as [[n d|n]|]; [| |intros Ey; exact Ey];
+        destruct (split_colon inside) as [n d|n];
           (destruct (mine only _); [|intros Ey; exact Ey]); unfold xmap in *; intros Ey;
           (eapply xbind_mono; [exact Ey|exact Hy|apply GE|apply OKm]).
       - destruct (aeqb b c_lbrace); [|exact E].
@@ -228,3 +227,108 @@ Qed.
 Lemma exact_self_reference_stops look f :
   xp_all [("A", "${A}")] look (S (S f)) "${A}" = XOk "${A}".
 Proof. reflexivity. Qed.
+
+(* ------------------------------------------------------------------ a colon directly behind `${` / `$[` *)
+(* find_next on a text that contains neither the delimiter nor a backslash in front of the first delimiter *)
+Lemma find_next_plain c : forall s after,
+  contains c s = false -> contains c_bs s = false -> find_next c (s ++ String c after) = FFound s after.
+Proof.
+  induction s as [|d s IH]; intros after Hc Hb.
+  - cbn [append find_next]. rewrite aeqb_refl. reflexivity.
+  - cbn [contains] in Hc, Hb. apply orb_false_iff in Hc, Hb. destruct Hc as [Hc1 Hc2], Hb as [Hb1 Hb2].
+    specialize (IH after Hc2 Hb2). rewrite aeqb_sym in Hc1. rewrite aeqb_sym in Hb1.
+    change (String d s ++ String c after) with (String d (s ++ String c after)).
+    destruct (s ++ String c after) as [|e r'] eqn:Er.
+    + destruct s; discriminate Er.
+    + cbn [find_next]. rewrite Hc1, Hb1. cbn [andb]. cbn [find_next] in IH. rewrite IH. reflexivity.
+Qed.
+
+Lemma contains_app c : forall a b, contains c (a ++ b) = contains c a || contains c b.
+Proof.
+  induction a as [|d a IH]; intros b; [reflexivity|]. cbn [append contains]. rewrite IH. now rewrite orb_assoc.
+Qed.
+
+Lemma rescan_tail_no_dollar (Erec : string -> xres) d :
+  (forall t, contains c_dollar t = false -> Erec t = XOk t) -> contains c_dollar d = false ->
+  rescan_tail Erec d = XOk d.
+Proof.
+  intros HE Hd. destruct d as [|a u]; [reflexivity|]. cbn [rescan_tail]. cbn [contains] in Hd.
+  apply orb_false_iff in Hd. destruct Hd as [_ Hu]. rewrite (HE u Hu). reflexivity.
+Qed.
+
+Section ColonAtStart.
+  Variable env : list (string * string).
+  Variable look : string -> option string.
+
+  Lemma xp_all_no_dollar f t : contains c_dollar t = false -> xp_all env look (S f) t = XOk t.
+  Proof.
+    intros H. apply xp_all_noph; [now apply no_dollar_noph|]. rewrite (no_dollar_count _ H). lia.
+  Qed.
+  Lemma xp_only_no_dollar k f t : contains c_dollar t = false -> xp_only env look (S f) k t = XOk t.
+  Proof.
+    intros H. apply xp_only_noph; [now apply no_dollar_noph|]. rewrite (no_dollar_count _ H). lia.
+  Qed.
+
+  (* one loop iteration at "${:" ++ d ++ "}" / "$[:" ++ d ++ "]" *)
+  Lemma scan_brace_colon only Eall (Erec : string -> xres) d :
+    (forall t, contains c_dollar t = false -> Erec t = XOk t) ->
+    contains c_dollar d = false -> contains c_rbrace d = false -> contains c_bs d = false ->
+    scan env look only Eall Erec ("${:" ++ d ++ "}") = XOk d.
+  Proof.
+    intros HE Hd Hr Hb.
+    assert (Hin : contains c_dollar (":" ++ d ++ "}") = false).
+    { change (":" ++ d ++ "}") with (String ":" (d ++ "}")). cbn [contains]. rewrite contains_app, Hd. reflexivity. }
+    unfold scan. change ("${:" ++ d ++ "}") with (String c_dollar (String c_lbrace (":" ++ d ++ "}"))).
+    cbn [split_at]. rewrite aeqb_refl. unfold at_dollar, step.
+    change (aeqb c_lbrace c_lbrack) with false. rewrite aeqb_refl. unfold brace_body.
+    rewrite (HE _ Hin). cbn [xbind].
+    change (":" ++ d ++ "}") with (String ":" d ++ String c_rbrace "").
+    rewrite find_next_plain; [|cbn [contains]; rewrite Hr; reflexivity|cbn [contains]; rewrite Hb; reflexivity].
+    unfold split_colon. destruct d as [|a u]; cbn [find_next getenv xbind append rescan_tail xmap]; [reflexivity|].
+    change (aeqb ":" c_colon) with true. cbn [getenv xbind]. rewrite app_empty_r.
+    rewrite (rescan_tail_no_dollar Erec (String a u) HE Hd). reflexivity.
+  Qed.
+
+  Lemma scan_bracket_colon (Eall Erec : string -> xres) d :
+    look "" = None ->
+    (forall t, contains c_dollar t = false -> Eall t = XOk t) ->
+    (forall t, contains c_dollar t = false -> Erec t = XOk t) ->
+    contains c_dollar d = false -> contains c_rbrack d = false -> contains c_bs d = false ->
+    scan env look None Eall Erec ("$[:" ++ d ++ "]") = XOk d.
+  Proof.
+    intros HL HA HE Hd Hr Hb.
+    assert (Hin : contains c_dollar (":" ++ d ++ "]") = false).
+    { change (":" ++ d ++ "]") with (String ":" (d ++ "]")). cbn [contains]. rewrite contains_app, Hd. reflexivity. }
+    unfold scan. change ("$[:" ++ d ++ "]") with (String c_dollar (String c_lbrack (":" ++ d ++ "]"))).
+    cbn [split_at]. rewrite aeqb_refl. unfold at_dollar, step. rewrite aeqb_refl. unfold bracket_body.
+    rewrite (HE _ Hin). cbn [xbind].
+    change (":" ++ d ++ "]") with (String ":" d ++ String c_rbrack "").
+    rewrite find_next_plain; [|cbn [contains]; rewrite Hr; reflexivity|cbn [contains]; rewrite Hb; reflexivity].
+    unfold split_colon. cbn [find_next]. change (aeqb ":" c_colon) with true. cbv iota.
+    unfold mine, get_entry. rewrite HL, (HA _ Hd). unfold xmap. cbn [xbind]. rewrite app_empty_r.
+    rewrite (rescan_tail_no_dollar Erec d HE Hd). reflexivity.
+  Qed.
+
+  Theorem colon_at_start_brace k f d :
+    contains c_dollar d = false -> contains c_rbrace d = false -> contains c_bs d = false ->
+    xp_all env look (S (S f)) ("${:" ++ d ++ "}") = XOk d /\
+    xp_only env look (S (S f)) k ("${:" ++ d ++ "}") = XOk d /\
+    read_x env look k ("${:" ++ d ++ "}") = XOk d.
+  Proof.
+    intros Hd Hr Hb. split; [|split].
+    - rewrite xp_all_S. apply scan_brace_colon; try assumption. intros t Ht. now apply xp_all_no_dollar.
+    - rewrite xp_only_S. apply scan_brace_colon; try assumption. intros t Ht. now apply xp_only_no_dollar.
+    - unfold read_x, stored_x, xfuel. rewrite xp_only_S.
+      rewrite scan_brace_colon; try assumption; [|intros t Ht; now apply xp_only_no_dollar].
+      cbn [xbind]. now apply xp_all_no_dollar.
+  Qed.
+
+  Theorem colon_at_start_bracket f d :
+    look "" = None ->
+    contains c_dollar d = false -> contains c_rbrack d = false -> contains c_bs d = false ->
+    xp_all env look (S (S f)) ("$[:" ++ d ++ "]") = XOk d.
+  Proof.
+    intros HL Hd Hr Hb. rewrite xp_all_S.
+    apply scan_bracket_colon; try assumption; intros t Ht; now apply xp_all_no_dollar.
+  Qed.
+End ColonAtStart.
